@@ -234,6 +234,62 @@ def work_tables(shard):
 
 
 ###############################################################################
+# cross leg: a page converts the same whatever pages were loaded before it in the process
+
+def _fresh_module():
+    import importlib
+    cpm = importlib.import_module('pcbasic.basic.codepage')
+    return importlib.reload(cpm)
+
+
+def work_cross(shard):
+    from pcbasic.data import read_codepage
+    part = Partial()
+    for first, second, bp in shard:
+        cpm = _fresh_module()
+        alone = cpm.Codepage(read_codepage(second), box_protect=bp)
+        cpm = _fresh_module()
+        cpm.Codepage(read_codepage(first), box_protect=bp)
+        after = cpm.Codepage(read_codepage(second), box_protect=bp)
+        ref = ref_for(second)
+        seqs = [bytes([c]) for c in range(256)]
+        seqs += [bytes([a, b]) for a in range(256) for b in (0x20, 0x40, 0x41, 0x5c, 0x61, 0x7e, 0x80, 0xa1, 0xdf, 0xfe)]
+        case0 = {'first': first, 'second': second, 'box_protect': bp}
+        for k in seqs:
+            part.n += 1
+            case = dict(case0, bytes=k)
+            ok1, u1 = _call(part, 'cross', case, alone.bytes_to_unicode, k)
+            ok2, u2 = _call(part, 'cross', case, after.bytes_to_unicode, k)
+            if not (ok1 and ok2):
+                continue
+            if u1 != u2:
+                part.violation('cross/bytes-to-unicode-depends-on-earlier-page/%s' % ('dbcs' if ref.dbcs else 'sbcs'),
+                               'page %s: %r -> %r when loaded alone, %r when page %s was loaded before' % (second, k, u1, u2, first), case)
+                continue
+            ok1, b1 = _call(part, 'cross', case, alone.unicode_to_bytes, u1)
+            ok2, b2 = _call(part, 'cross', case, after.unicode_to_bytes, u1)
+            if ok1 and ok2 and b1 != b2:
+                part.violation('cross/unicode-to-bytes-depends-on-earlier-page/%s' % ('dbcs' if ref.dbcs else 'sbcs'),
+                               'page %s: %r -> %r when loaded alone, %r when page %s was loaded before' % (second, u1, b1, b2, first), case)
+        # every character of the first page, converted by the second
+        for u in sorted(set(ref_for(first).nfc.values())):
+            part.n += 1
+            case = dict(case0, cluster=[ord(c) for c in u])
+            ok1, b1 = _call(part, 'cross', case, alone.unicode_to_bytes, u)
+            ok2, b2 = _call(part, 'cross', case, after.unicode_to_bytes, u)
+            if ok1 and ok2 and b1 != b2:
+                part.violation('cross/unicode-to-bytes-depends-on-earlier-page/%s' % ('dbcs' if ref.dbcs else 'sbcs'),
+                               'page %s: U+%s -> %r when loaded alone, %r when page %s was loaded before' % (
+                                   second, ','.join('%04X' % ord(c) for c in u), b1, b2, first), case)
+        part.classes.add('cross/%s-after-%s' % ('dbcs' if ref.dbcs else 'sbcs', 'dbcs' if ref_for(first).dbcs else 'sbcs'))
+    _fresh_module()
+    _PAGES.clear()
+    part.traces = part.n
+    part.sample({'pairs': [list(x) for x in shard[:2]]})
+    return part
+
+
+###############################################################################
 # streaming converter
 
 PRESERVE = {'none': (), 'control': CONTROL}
@@ -452,6 +508,15 @@ def legs(ctx):
                              len(dbcs), plan[0][0], plan[1][0],
                              min(v for (a, b, p), v in nsyms.items() if p == 1),
                              max(v for (a, b, p), v in nsyms.items() if p == 1))))
+    special = dbcs + [n for n in names if ref_for(n).subst and n not in dbcs]
+    targets = dbcs + [n for n in ('437', '850', '1258', 'mazovia') if n in names]
+    if not ctx.quick:
+        targets = names
+    pairs = [(a, b, bp) for a in special for b in targets if a != b for bp in ((True,) if ctx.quick else (True, False))]
+    out.append(Leg('cross', list(chunked(pairs, 4)), work_cross, exhaustive=True,
+                   bound='%d ordered pairs (page loaded first: the %d pages with lead bytes or substitutes; page under test: %s): every '
+                         'single byte, 2560 byte pairs and every character of the first page convert as when the page is '
+                         'loaded alone in a fresh module' % (len(pairs), len(special), 'the DBCS pages + 4 SBCS pages' if ctx.quick else 'all pages')))
     out.append(Leg('bfs', [12], work_bfs, exhaustive=True, serial=True,
                    bound='converter state machine of every DBCS page x box_protect x preserve set over one '
                          'representative per byte class, BFS to a fixed point (depth cap 12)'))
